@@ -126,6 +126,11 @@ FAMILIES = {
     'req_cookie_semicolons': ('req', BIG, pump(RQ + b'Cookie: a=b', b'; ', b'\r\n\r\n')),
     'req_multipart_parts': ('req', {'MULTIPART_PARSER': 1}, body_cl(MPH, b'', b'--BB\r\nContent-Disposition: form-data; name="n%d"\r\n\r\nv\r\n', b'--BB--\r\n')),
     'req_multipart_files': ('req', {'MULTIPART_PARSER': 1}, body_cl(MPH, b'', b'--BB\r\nContent-Disposition: form-data; name="f"; filename="a%d.txt"\r\nContent-Type: text/plain\r\n\r\nv\r\n', b'--BB--\r\n')),
+    # ... the same with file extraction switched on (htp_config_set_extract_request_files), extraction limit 2 and 16: parts beyond
+    # the limit are parsed but not extracted, and a part costs the same whatever came before it
+    'req_multipart_files_extract2': ('req', {'MULTIPART_PARSER': 1, 'EXTRACT_FILES': 2}, body_cl(MPH, b'', b'--BB\r\nContent-Disposition: form-data; name="f"; filename="a%d.txt"\r\nContent-Type: text/plain\r\n\r\nv\r\n', b'--BB--\r\n')),
+    'req_multipart_files_extract16': ('req', {'MULTIPART_PARSER': 1, 'EXTRACT_FILES': 16}, body_cl(MPH, b'', b'--BB\r\nContent-Disposition: form-data; name="f%d"; filename="a.txt"\r\n\r\nv\r\n', b'--BB--\r\n')),
+    'req_multipart_file_lines_extract': ('req', {'MULTIPART_PARSER': 1, 'EXTRACT_FILES': 2}, body_cl(MPH, b'--BB\r\nContent-Disposition: form-data; name="f"; filename="a.txt"\r\n\r\n', b'line %d\r\n', b'--BB--\r\n')),
     'req_multipart_lookalikes': ('req', {'MULTIPART_PARSER': 1}, body_cl(MPH, b'--BB\r\nContent-Disposition: form-data; name="n"\r\n\r\n', b'x\r\n--Bz', b'\r\n--BB--\r\n')),
     'req_multipart_part_headers': ('req', {'MULTIPART_PARSER': 1}, body_cl(MPH, b'--BB\r\nContent-Disposition: form-data; name="n"\r\n', b'X-%d: v\r\n', b'\r\nv\r\n--BB--\r\n')),
     'req_multipart_part_headers_same': ('req', {'MULTIPART_PARSER': 1}, body_cl(MPH, b'--BB\r\nContent-Disposition: form-data; name="n"\r\n', b'X-A: v\r\n', b'\r\nv\r\n--BB--\r\n')),
